@@ -19,7 +19,8 @@ CLS = {c.__name__: c for c in ALL_PSEUDO}
 def key_facts(key):
     t = unidecode(key)
     fold = re.sub(r"[^0-9a-zA-Z]", "", t).lower()
-    first = key[:1]
+    # the label pipeline drops every non-word character first: what leads the key is its first WORD character
+    first = re.sub(r"\W", "", key)[:1]
     lead = "alpha" if first.isalpha() else "digit" if first.isdigit() else "under" if first == "_" else "other"
     return {"fold": fold, "letter": bool(re.search(r"[a-zA-Z]", t)), "lead": lead}
 
@@ -281,3 +282,158 @@ def module_traces(pid, chk, cases, prefix="m"):
         traces.append(t)
         inputs[tid] = inp
     return traces, inputs
+
+
+# ---------------------------------------------------------------------- C10: literal sets
+LIT_ALPHABET = ["'", '"', "\\", "\n", ",", " ", "a", "é", "\U0001F600", "}", ".", "b", "{", "\t", " "]
+COLLIDE = ["a", "a,a", "a,a,a", "...", ",", "a,", ",a"]
+
+
+def lit_string(rng, length):
+    return "".join(rng.choice(LIT_ALPHABET) for _ in range(length))
+
+
+def literal_cases(chk, n):
+    """field `a` sees `count` distinct plain strings with a chosen longest length; optional pseudo-typed/other company"""
+    rng = chk.rng
+    cases = []
+    for i in range(n):
+        count = rng.choice([0, 1, 2, 3, 9, 10, 11, 14, 15, 16, 17])
+        longest = rng.choice([1, 2, 3, 3, 19, 20, 21])
+        strs = set()
+        if rng.random() < 0.3:
+            strs.update(rng.sample(COLLIDE, min(count, rng.randint(2, 4))))
+        tries = 0
+        while len(strs) < count:
+            tries += 1
+            L = longest if len(strs) == 0 else rng.randint(1, min(max(longest, 2 + tries // 50), 4))
+            strs.add(lit_string(rng, L))
+        strs = list(strs)
+        rng.shuffle(strs)
+        company = rng.choice([None, None, "1", 1, None, "1.5"])
+        in_list = rng.random() < 0.25
+        samples = []
+        for s in strs:
+            samples.append({"a": [s] if in_list else s, "b": 1})
+        if company is not None or not samples:
+            samples.append({"a": [company] if in_list and company is not None else company, "b": 2})
+        if rng.random() < 0.3 and strs:
+            samples.append({"a": [strs[0]] if in_list else strs[0], "b": 3})   # repetition
+        fw = rng.choice(FRAMEWORKS)
+        kw = {"max_literals": rng.choice([0, 1, 2, 3, 4, 10, 11, 12, 15, 16])}
+        if rng.random() < 0.3:
+            kw = {}
+        cases.append(dict(roots=[("Root", samples)], envspec={}, policy=DR.POLICIES[1], fw=fw,
+                          layout=rng.choice(["flat", "nested"]), kw=kw))
+    return cases
+
+
+# ---------------------------------------------------------------------- C11: wide-alphabet keys
+KEY_ALPHABET = list("abcxyzABZ019") + ["_", "-", " ", ".", '"', "'", "\\", "/", "$", "é", "ß", "я", "名", "Ω", ":", "#"]
+
+
+def wide_key(rng):
+    n = rng.randint(1, 7)
+    k = "".join(rng.choice(KEY_ALPHABET) for _ in range(n))
+    if rng.random() < 0.3:
+        k = rng.choice(WORDS) + rng.choice(["", "-", " ", ".", '"']) + k
+    return k
+
+
+def key_cases(chk, n):
+    rng = chk.rng
+    cases = []
+    for i in range(n):
+        nk = rng.randint(1, 3)
+        indomain = rng.random() < 0.85
+        if indomain:
+            keys, folds = [], set()
+            tries = 0
+            while len(keys) < nk and tries < 200:
+                tries += 1
+                k = wide_key(rng)
+                f = key_facts(k)
+                if not f["letter"] or f["lead"] == "under" or not f["fold"] or f["fold"] in folds or f["lead"] == "digit":
+                    continue
+                # leading punctuation is stripped by the label pipeline: keep the first letter-ish
+                folds.add(f["fold"])
+                keys.append(k)
+        else:
+            base = wide_key(rng)
+            keys = [base, rng.choice([base.upper(), base + "-", "_" + base, base.replace("a", "A"), "_x", "__"])][:nk]
+            keys = list(dict.fromkeys(keys))
+        obj = {k: rng.choice([1, "s", None, [1], {"q": 1}]) for k in keys}
+        nested_key = wide_key(rng) if rng.random() < 0.5 else "child"
+        samples = [dict(obj), dict(obj)]
+        if rng.random() < 0.5 and key_facts(nested_key)["letter"] and key_facts(nested_key)["lead"] == "alpha":
+            samples[0] = {nested_key: dict(obj), "z9": 1}
+            samples[1] = {nested_key: dict(obj), "z9": None}
+        fw = rng.choice(FRAMEWORKS)
+        kw = {}
+        if fw in ("attrs", "dataclasses"):
+            kw["meta"] = rng.random() < 0.7
+        if rng.random() < 0.4:
+            kw["convert_unicode"] = False
+        cases.append(dict(roots=[("Root", samples)], envspec={}, policy=DR.POLICIES[1], fw=fw,
+                          layout=rng.choice(["flat", "nested"]), kw=kw, indomain=indomain))
+    return cases
+
+
+# ---------------------------------------------------------------------- C12: tree-shaped graphs
+def tree_cases(chk, n):
+    rng = chk.rng
+    cases = []
+    for i in range(n):
+        base = random_graph_input(rng)
+        samples = [base] + [perturb(rng, base) for _ in range(rng.choice([0, 1]))]
+        fw = rng.choice(FRAMEWORKS)
+        pol = rng.choice([[("number", 20)], [("number", 20)], [("exact", 0)], DR.POLICIES[1]])
+        cases.append(dict(roots=[("Root", samples)], envspec=rng.choice([{}, {"datetime": True}]), policy=pol, fw=fw,
+                          layout="flat", kw=random_kw(rng, fw)))
+    return cases
+
+
+# ---------------------------------------------------------------------- C18: converter paths
+PSEUDO_LEAVES = {"IntString": ["1", "-7", "12"], "FloatString": ["1.5", "2e3", "1.0"], "BooleanString": ["true", "False", "TRUE"],
+                 "IsoDateString": ["2020-01-02", "1999-12-31"], "IsoTimeString": ["10:20:30", "23:59"],
+                 "IsoDatetimeString": ["2020-01-02T10:20:30", "2020-01-02T10:20:30+01:00"]}
+
+
+def path_value(rng, path, leaves):
+    """value whose inferred type nests List / Dict (keys k1, k2 -> matched by the dict-keys regex) around the leaf"""
+    if not path:
+        return rng.choice(leaves)
+    tok, rest = path[0], path[1:]
+    if tok == "L":
+        return [path_value(rng, rest, leaves) for _ in range(rng.choice([0, 1, 2]))]
+    if tok == "D":
+        return {k: path_value(rng, rest, leaves) for k in rng.sample(["k1", "k2", "k3"], rng.choice([0, 1, 2]))}
+    raise ValueError(tok)
+
+
+def converter_cases(chk, n):
+    rng = chk.rng
+    cases = []
+    for i in range(n):
+        fields = {}
+        nf = rng.randint(1, 3)
+        samples = [{}, {}, {}]
+        for f in range(nf):
+            name = "f%d" % f
+            ptype = rng.choice(list(PSEUDO_LEAVES) + ["plain", "int"])
+            leaves = PSEUDO_LEAVES.get(ptype) or (["foo", "bar"] if ptype == "plain" else [3, 4])
+            path = [rng.choice("LD") for _ in range(rng.choice([0, 0, 1, 1, 2, 3]))]
+            optional = rng.random() < 0.4
+            for j, s in enumerate(samples):
+                if optional and j == 1:
+                    if rng.random() < 0.5:
+                        s[name] = None
+                    continue
+                s[name] = path_value(rng, path, leaves)
+        fw = rng.choice(["attrs", "dataclasses"])
+        kw = {"post_init_converters": rng.random() < 0.7}
+        if rng.random() < 0.3:
+            kw["meta"] = True
+        cases.append(dict(roots=[("Root", samples)], envspec={"datetime": True, "dkr": [r"k\d"]}, policy=DR.POLICIES[1], fw=fw,
+                          layout="flat", kw=kw))
+    return cases
